@@ -72,9 +72,10 @@ class Lib:
         for fn in ctx.__dict__.get("forall_locs", []):
             ctx.assume(fn(loc))
 
-    def typing(self, fs0, dirs0):
+    def typing(self, fs0, dirs0, cwd_clean=True):
         """Typing part of the store invariant for the entry state, as a fact about every
-        location."""
+        location.  cwd_clean=False drops the assumption about the working directory (used for the
+        functions that are verified without it)."""
         def fact(loc):
             st = z3.Select(fs0, loc)
             kind = T.l_kind(loc)
@@ -88,7 +89,8 @@ class Lib:
                 z3.Implies(T.present(st), z3.Select(dirs0, self.parent_dir_of_loc(loc))),
                 # no file of the working directory is named like a hex digest (the cwd-relative
                 # fallbacks of the path lookups find nothing)
-                z3.Implies(z3.And(kind == T.K_EXT, T.ishex(T.l_k1(loc))), T.is_Absent(st)),
+                z3.Implies(z3.And(kind == T.K_EXT, T.ishex(T.l_k1(loc))), T.is_Absent(st))
+                if cwd_clean else z3.BoolVal(True),
             )
         return fact
 
@@ -299,6 +301,8 @@ class Lib:
         if isinstance(v, VSymSeq):
             if "nonempty" in v.info:
                 return v.info["nonempty"]
+            if v.what == "lines":
+                return v.info["m"] != T.NOLINES
         raise Undecided(f"truth value of {v}")
 
     def need_str(self, it, v, exc="AttributeError"):
@@ -688,6 +692,20 @@ class Lib:
             it.raise_("KeyError")
         if isinstance(obj, VNone):
             it.raise_("TypeError")
+        if isinstance(obj, VSymSeq) and obj.what == "lines" and obj.info.get("raw"):
+            # one line of a line file (which one is not modelled: the multiset has no order):
+            # <identifier> + "\n" for some identifier of the multiset
+            k = z3.simplify(self.as_int(it, key).term)
+            if not z3.is_int_value(k):
+                raise Undecided("symbolic index into the lines of a file")
+            m = obj.info["m"]
+            if it.ctx.branch(m == T.NOLINES):
+                it.raise_("IndexError")
+            x = it.ctx.fresh("line", T.S)
+            it.ctx.assume(z3.Select(m, x) > 0)
+            lv = VStr(z3.Concat(x, z3.StringVal("\n")))
+            lv.line_of = x
+            return lv
         raise Undecided(f"subscript of {obj}")
 
     def dict_lookup(self, it, d, key):
